@@ -211,6 +211,18 @@ func (w *World) execute(ctx context.Context, sd *stepData, in map[string]any, ke
 	}
 	_ = cancelled
 	switch b.Outcome {
+	case "crash", "bad_output", "undeclared":
+		// The plugin-side ATP server of the SDK panics ("send on closed channel") when a step fails
+		// after its session has been shut down. That would be a crash of the plugin process, not of
+		// the engine; in this harness the plugin lives in the worker process, so avoid it.
+		select {
+		case <-ctx.Done():
+			w.Log("ctx-done", key, nil)
+			return "alt", AltData(in)
+		default:
+		}
+	}
+	switch b.Outcome {
 	case "success", "":
 		return "success", SuccessData(in)
 	case "error":
